@@ -382,3 +382,10 @@ func init() {
 		Assumptions: []string{"the answer is observed where the property puts it (messages handed to the connection); the teardown that follows an erroneous receipt is not counted against it", "receiver/sender threads eager"},
 	})
 }
+
+// c19concurrent: three submissions from two connections fired at once (the
+// queue can be found full), forwarder interleaved.
+func c19concurrent(cap int, mode string, bound int) check.Job {
+	p, _ := json.Marshal(c19Params{Cap: cap, Mode: mode, Subs: []string{"a:valid", "b:valid", "a:valid-2"}, Bound: bound})
+	return check.Job{Kind: "c19", Name: "S3:receipts-concurrent", Params: p, BudgetS: 300}
+}
